@@ -320,3 +320,26 @@ func (u *Unlocker) UnlockAccount(ctx context.Context, wallet e2wtypes.Wallet, ac
 	}
 	return true, nil
 }
+
+// DistAccount is an Account that is this instance's share of a distributed validator key: besides its
+// own (share) public key it names the composite key of the validator.
+type DistAccount struct {
+	*Account
+	Composite [48]byte
+}
+
+func (a *DistAccount) CompositePublicKey() e2types.PublicKey { return &PubKey{B: a.Composite[:]} }
+func (a *DistAccount) SigningThreshold() uint32              { return 2 }
+func (a *DistAccount) VerificationVector() []e2types.PublicKey {
+	return []e2types.PublicKey{&PubKey{B: a.Composite[:]}, &PubKey{B: a.Key[:]}}
+}
+func (a *DistAccount) Participants() map[uint64]string {
+	return map[uint64]string{1: "signer-test01:8881", 2: "signer-test02:8882", 3: "signer-test03:8883"}
+}
+
+// MakeDistributed turns account k of the wallet into a share of a distributed key with the given composite key.
+func (w *Wallet) MakeDistributed(k int, composite [48]byte) {
+	if a, ok := w.Accts[k].(*Account); ok {
+		w.Accts[k] = &DistAccount{Account: a, Composite: composite}
+	}
+}
